@@ -477,3 +477,56 @@ Proof.
   induction ops as [|o rest IH]; intros h I X; [apply I|].
   rewrite run_cons. simpl fst. apply IH. apply step_single. exact I.
 Qed.
+
+(* ------------------------------------------------------------------ part 4: connect *)
+
+(* only SetupData whose connect() returned True are registered, at most one per protocol *)
+Lemma connect_regs_In added : forall handled p i,
+  In (p, i) (connect_regs added handled) ->
+  In (p, true, Some i) added /\ existsb (proto_eqb p) handled = false.
+Proof.
+  induction added as [|[[q ok] oi] rest IH]; intros handled p i H; simpl in H; [destruct H|].
+  destruct (existsb (proto_eqb q) handled) eqn:Hq.
+  - destruct (IH _ _ _ H) as [A B]. split; [now right|exact B].
+  - destruct ok.
+    + apply in_app_or in H as [H|H].
+      * destruct oi as [j|]; [|destruct H]. destruct H as [H|[]]. inversion H; subst.
+        split; [now left|exact Hq].
+      * destruct (IH _ _ _ H) as [A B]. split; [now right|].
+        rewrite existsb_app in B. apply orb_false_iff in B. tauto.
+    + destruct (IH _ _ _ H) as [A B]. split; [now right|exact B].
+Qed.
+
+Lemma connect_regs_distinct added : forall handled p i,
+  In (p, i) (connect_regs added handled) -> reg_of (connect_regs added handled) p = Some i.
+Proof.
+  induction added as [|[[q ok] oi] rest IH]; intros handled p i H; simpl in *; [destruct H|].
+  destruct (existsb (proto_eqb q) handled) eqn:Hq; [exact (IH _ _ _ H)|].
+  destruct ok; [|exact (IH _ _ _ H)].
+  destruct oi as [j|]; simpl in *.
+  - destruct H as [H|H].
+    + inversion H; subst. assert (E : proto_eqb p p = true) by now apply proto_eqb_eq. now rewrite E.
+    + destruct (proto_eqb q p) eqn:E.
+      * apply proto_eqb_eq in E. subst q. destruct (connect_regs_In _ _ _ _ H) as [_ B].
+        rewrite existsb_app in B. apply orb_false_iff in B as [_ B]. simpl in B.
+        assert (T : proto_eqb p p = true) by now apply proto_eqb_eq. rewrite T in B. discriminate.
+      * exact (IH _ _ _ H).
+  - exact (IH _ _ _ H).
+Qed.
+
+Lemma reg_of_In l : forall p i, reg_of l p = Some i -> In (p, i) l.
+Proof.
+  induction l as [|[q j] t IH]; intros p i H; simpl in H; [discriminate|].
+  destruct (proto_eqb q p) eqn:E.
+  - apply proto_eqb_eq in E. inversion H; subst. now left.
+  - right. exact (IH _ _ H).
+Qed.
+
+(* a call is never executed by a protocol that did not connect *)
+Lemma routed_connected added order p :
+  find_instance (reg_of (connect_regs added [])) order = Routed p ->
+  exists i, In (p, true, Some i) added /\ overrides i = true.
+Proof.
+  intro H. destruct (routed_overrides _ _ _ H) as (_ & i & R & _ & O).
+  exists i. split; [|exact O]. exact (proj1 (connect_regs_In _ _ _ _ (reg_of_In _ _ _ R))).
+Qed.
